@@ -14,6 +14,7 @@ import (
 
 	"github.com/prometheus/common/model"
 
+	"verifharness/appsys"
 	"verifharness/dconc"
 	"verifharness/sysrun"
 	"verifharness/vh"
@@ -43,6 +44,11 @@ func coqLabels(ls model.LabelSet) string {
 func TestCheck(t *testing.T) {
 	env := vh.GetEnv()
 	runA := vh.NewRun(env, "AM.Run.C06Run")
+	// app engine: the REAL application wiring (package app) in real time, in its own process; reports through runA.
+	// true = the replay file held an app-engine case and has been handled.
+	if appsys.Part(t, env, runA, "C06") {
+		return
+	}
 	var scs []sysrun.Scenario
 	var dcs []dconc.DCase
 	var kcs []keyCase
